@@ -1832,6 +1832,111 @@ def rule_partition_kinds(w):
                       "candidate: for a request of p ranks a partition with p cells and a different number of patches is handed out, every other request fails" % c.get("n"), fn.file, n.get("l"))
         if not found:
             ck.incomplete(R, "PartitionSet::find_partition: no comparison of `size` with an accessor of the candidate partition found")
+            continue
+        # (3) the filters are conjunctive: the statement that accepts a candidate is only reached when the size test was true
+        _partition_filter_conjunctive(w, fn, fkp, sd, [n for n, calls in cmps if calls])
+
+
+def _partition_filter_conjunctive(w, fn, fk, sd, cmp_nodes):
+    ck = w.ck
+    R = "E2.partition-kinds"
+    key = "PartitionSet::find_partition(size,names,prio)/accepted only if the size matches"
+    rets = [strip(x.get("e")) for x in fn.nodes() if x.get("k") == "Return" and x.get("e") is not None]
+    rd = {r.get("d") for r in rets if r is not None and r.get("k") == "Ref" and r.get("dk") == "local"}
+    par = {}
+    st = [fn.body]
+    while st:
+        x = st.pop()
+        for c in children(x):
+            par[id(c)] = x
+            st.append(c)
+    accepts = [x for x in fn.nodes() if x.get("k") == "Assign" and x.get("op") == "=" and strip(x["lhs"]).get("k") == "Ref" and strip(x["lhs"]).get("d") in rd
+               and any(par.get(id(y), {}).get("k") in ("For", "ForRange", "While", "Do") or True for y in [x])]
+    # only acceptances inside a loop over the candidates
+    def in_loop(n):
+        cur = n
+        while id(cur) in par:
+            cur = par[id(cur)]
+            if cur.get("k") in ("For", "ForRange", "While", "Do"):
+                return cur
+        return None
+    accepts = [x for x in accepts if in_loop(x) is not None]
+    if len(rd) != 1 or not accepts:
+        ck.incomplete(R, "%s: the statement that accepts a candidate (assignment of the returned pointer inside the loop) is not recognised" % key)
+        return
+    cmp_ids = {id(n) for n in cmp_nodes}
+
+    def implies(cond, positive, depth=0):
+        """True: (cond == positive) implies the size test; 'or': the size test is only one alternative of a disjunction; False: unrelated"""
+        c = strip(cond)
+        if c is None or depth > 6:
+            return False
+        if c.get("k") == "Un" and c.get("op") == "!":
+            return implies(c["e"], not positive, depth + 1)
+        if c.get("k") == "Bin" and c.get("op") in ("&&", "||"):
+            a, b = implies(c["lhs"], positive, depth + 1), implies(c["rhs"], positive, depth + 1)
+            strong = (c["op"] == "&&") == positive          # a && b true  /  a || b false: both operands are known
+            if strong:
+                return True if True in (a, b) else ("or" if "or" in (a, b) else False)
+            return "or" if (a in (True, "or") or b in (True, "or")) else False
+        if c.get("k") == "Bin" and c.get("op") in ("==", "!="):
+            same = id(c) in cmp_ids or (any(x.get("k") == "Ref" and x.get("d") == sd for x in walk(c)) and any(x.get("k") == "MCall" and _accessor_kind(w, x)[1] is not None for x in walk(c)))
+            if same:
+                return (c["op"] == "==") == positive
+            return False
+        if c.get("k") == "Ref" and c.get("dk") == "local":
+            v0 = fk.locals.get(c.get("d"))
+            muts = fk.mut.get(c.get("d")) or []
+            if v0 is None:
+                return False
+            base = implies(v0.get("init"), positive, depth + 1) if v0.get("init") is not None else False
+            if not muts:
+                return base
+            if base is not True and not any(m.get("k") == "Assign" and m.get("op") == "=" and implies(m["rhs"], positive, depth + 1) is True for m in muts):
+                return base
+            # the flag starts as the size test: later updates must only narrow it
+            for m in muts:
+                if m.get("k") != "Assign":
+                    return False
+                r0 = strip(m["rhs"])
+                if m.get("op") == "&=" or (m.get("op") == "=" and r0.get("k") == "Bin" and r0.get("op") == "&&" and any(strip(x).get("k") == "Ref" and strip(x).get("d") == c.get("d") for x in (r0["lhs"], r0["rhs"]))):
+                    continue
+                if m.get("op") == "|=" or (m.get("op") == "=" and r0.get("k") == "Bin" and r0.get("op") == "||" and any(strip(x).get("k") == "Ref" and strip(x).get("d") == c.get("d") for x in (r0["lhs"], r0["rhs"]))):
+                    return "or" if positive else False
+                if m.get("op") == "=" and implies(m["rhs"], positive, depth + 1) is True:
+                    continue
+                return False
+            return True if positive else False
+        return False
+    verdicts = []
+    for acc in accepts:
+        loop = in_loop(acc)
+        res = False
+        cur = acc
+        while id(cur) in par and cur is not loop:
+            p_ = par[id(cur)]
+            if p_.get("k") == "If":
+                r = implies(p_.get("c"), True) if cur is p_.get("then") else (implies(p_.get("c"), False) if cur is p_.get("else") else False)
+                res = r if r in (True, "or") and res is not True else res
+            if p_.get("k") == "Block":
+                for s0 in p_.get("s", []):
+                    if s0 is cur:
+                        break
+                    if s0.get("k") == "If" and s0.get("else") is None and norm_c12.always_leaves(s0.get("then")):
+                        r = implies(s0.get("c"), False)
+                        res = r if r in (True, "or") and res is not True else res
+            cur = p_
+        verdicts.append((acc, res))
+    bad = [(a, r) for a, r in verdicts if r == "or"]
+    unk = [(a, r) for a, r in verdicts if r is False]
+    if bad:
+        ck.ob(R, key, False, "the acceptance `%s` (line %s) is reached when a flag is true that starts as the size test and is then OR-ed with other criteria (name match): a candidate "
+              "is accepted if its size OR its name matches - find_partition(p, name) hands out a partition with a different number of patches, impossible requests are not refused" % (
+                  render(bad[0][0])[:40], bad[0][0].get("l")), fn.file, bad[0][0].get("l"))
+    elif unk:
+        ck.incomplete(R, "%s: the acceptance `%s` (line %s) is not governed by a condition this rule reads as the size test" % (key, render(unk[0][0])[:40], unk[0][0].get("l")))
+    else:
+        ck.ob(R, key, True, "every acceptance of a candidate is control dependent on size == number of patches of the candidate (the filters are conjunctive)", fn.file, accepts[0].get("l"))
 
 
 # -------------------------------------------------------------------------------------------------
